@@ -206,7 +206,15 @@ func c20Schema(o *oracleRun, r *rand.Rand, cs int64) {
 		set[path] = v
 		return v
 	}
-	if r.Intn(2) == 0 {
+	if r.Intn(4) == 0 {
+		// a kind WITHOUT a schema (a custom resource, an API version the built-in data does not have): the formatter only
+		// re-orders; every scalar — in metadata too — reads after formatting as it read before
+		vals["none"] = []string{"2048", "7", "true", "0.5", "abc", "012", "yes", "1e3", "x-y"}
+		av := pickS(r, []string{"example.com/v1\nkind: Widget", "extensions/v1beta1\nkind: Deployment", "v1\nkind: Foo"})
+		doc = "apiVersion: " + av + "\nmetadata:\n  name: " + put("metadata.name", "none") + "\n  labels:\n    shard: " + put("metadata.labels.shard", "none") +
+			"\n    canary: " + put("metadata.labels.canary", "none") + "\n  annotations:\n    weight: " + put("metadata.annotations.weight", "none") +
+			"\nspec:\n  replicas: " + put("spec.replicas", "none") + "\n  paused: " + put("spec.paused", "none") + "\n"
+	} else if r.Intn(2) == 0 {
 		doc = "apiVersion: v1\nkind: Service\nmetadata:\n  name: s\n  labels:\n    l: " + put("metadata.labels.l", "string") +
 			"\n  annotations:\n    a: " + put("metadata.annotations.a", "string") +
 			"\nspec:\n  publishNotReadyAddresses: " + put("spec.publishNotReadyAddresses", "boolean") +
